@@ -1041,8 +1041,13 @@ def iter_next(I, st, depth, callee, args, body, ln):
             for g in callee.get("ga", []):
                 if g in D.INT_TYPES:
                     ty = g
-            m = re.search(r"Range<(\w+)>", callee.get("res") or "")
-            ty = ty or (m.group(1) if m else "usize")
+            if ty is None:
+                for g in callee.get("ga", []):
+                    m = re.search(r"Range<(\w+)>", g)
+                    if m and m.group(1) in D.INT_TYPES:
+                        ty = m.group(1)
+            if ty is None:
+                ty = "usize"
             c = D.cmpop("Lt", lo, hi)
             vs = {}
             if D.contains(c, 0):
